@@ -598,3 +598,33 @@ def check_C15(tier, seed, rest):
     r = api_run("api", tier, seed, API_CFGS)
     v = [api_violation(f) for f in r["findings"] if f["kind"] == "bump"]
     finish("C15", tier, seed, "model_checking", api_coverage(r), v, t0, ["usize::MAX-1 and usize::MAX stand for all values whose addition overflows", "after a caught panic the specification requires the lexer to be unchanged"])
+
+
+# ------------------------------------------------------------------------------------------
+# front end
+
+def check_C19(tier, seed, rest):
+    t0 = time.time()
+    import front
+    r = front.derive_run(tier, seed)
+    v = r["findings"]
+    cov = {"evaluations": r["run"] + r["rustc_cases"], "distinct_nontrivial": r["run"], "samples": r["samples"],
+           "enumerated_by_tlc": r["enumerated"], "library_runs": r["run"], "accepted": r["accepted"], "rejected": r["rejected"], "rustc_proc_macro_cases": r["rustc_cases"],
+           "exhaustive": tier == "thorough",
+           "rule": "Derive.tla enumerates the product variant shape x attribute form x enum-level form x second variant (18 200 inputs) with the verdict the specification assigns; "
+                   "every rendered source is distinct and non-trivial (an enum with at least one variant); quick = all single-feature deviations from a valid baseline + a seeded sample of 2 500, thorough = all; "
+                   "each is run through logos_codegen::generate under catch_unwind, and a sample covering every feature value through rustc as a real proc macro on the stable toolchain"}
+    finish("C19", tier, seed, "exploration", cov, v, t0, ["the enumerated grammar is the input space (arbitrary token soup inside attributes is not generated)",
+                                                         "accepted definitions are shown to work by the C01 replay of the corpus definitions, here only by compiling"])
+
+
+def check_C18(tier, seed, rest):
+    t0 = time.time()
+    import front
+    r = front.attr_run(tier, seed)
+    cov = {"evaluations": 2 * r["cases"], "distinct_nontrivial": r["cases"], "samples": r["samples"], "exhaustive": True,
+           "tlc_states": r["tlc"]["distinct"], "equivalent_to_canonical": r["equivalent"],
+           "rule": "Attr.tla enumerates every permutation of every subset of the named arguments {priority, callback, ignore, allow_greedy} for token / regex / skip(...) with and without a positional callback, "
+                   "and every dependency-respecting permutation of every subset (>= 2) of the #[logos(...)] items {skip(..), extras, error, subpattern a, subpattern b (uses a), utf8}; TLC also checks that the tokenizer model "
+                   "(parser/nested.rs) splits each argument list like the abstract grammar; each case is run through the real derive and compared with its canonical order: same verdict, same captured leaves, priorities and final graph"}
+    finish("C18", tier, seed, "exploration", cov, r["findings"], t0, ["argument values are fixed representatives (priority = 7, ignore(case), allow_greedy = true, a closure callback)"])
